@@ -442,7 +442,8 @@ class YPPythonCodeGenerator:
         unset_break_code = self.l("doBreak = False")
         wrap_code = self.l("for _ in [1]:")
         self.indent()
-        code = self.generate_code_list(func.body)
+        # a body that can never succeed compiles to no statements at all
+        code = self.generate_code_list(func.body) or self.l("pass")
         self.dedent()
         # break_code = self.generate_break_code() # level <= 1, not needed
         false_yield_code = self.generate_code_list( [ YPCodeIf(YPCodeExpr(False),[YPCodeYieldFalse()]) ])
@@ -469,7 +470,7 @@ class YPPythonCodeGenerator:
         self.indent()
         self._enter_loop()
         if loop.loop_code == []:
-            code = [ self.l("pass") ]
+            code = self.l("pass")
         else:
             code = self.generate_code_list(loop.loop_code)
         self._leave_loop()
